@@ -76,6 +76,7 @@ def conformance(tier):
         dict(name="routing-model", argv=["conformance.py"]),
         # R mode (bounded, never counted as proved): every clause evaluated on the real code over small type terms
         dict(name="native:c12", argv=["suite.py", "c12_search"], violation_on_fail=True),
+        dict(name="native:c14order", argv=["c14_order.py"], violation_on_fail=True),
     ]
 
 
